@@ -583,6 +583,10 @@ def gen_opt(seed=0):
         add(name, mod(name, [("a", "input ", lg(W)), ("c", "input ", lg(5)), ("d", "input ", lg(3)), ("y", "output", lg(W)),
                              ("z", "output", lg(W))],
                       "    assign y = (if c[0] ? (&c) : d) + a;\n    assign z = (if c[1] ? (c == 5'd1) : (d <: c)) | a;"))
+    name = "O_sgncmp"
+    add(name, mod(name, [("a", "input ", lg(3, True)), ("b", "input ", lg(7, True))] + [(f"y{k}", "output", "logic") for k in range(5)],
+                  "    assign y0 = (a >: b[3:1]);\n    assign y1 = (b[3:1] <: a);\n    assign y2 = (a >= b[3:1]);\n"
+                  "    assign y3 = (a <: b[2:1]);\n    assign y4 = (b[6:1] >: a);"))
     for W in (4, 7):
         # selects of signed variables inside signed contexts
         name = f"O_sgnsel_{W}"
